@@ -394,8 +394,81 @@ def _poly_mag(spec, amp):
     return 0.0
 
 
+# ------------------------------------------------------------------ equilibria on a lattice of round values
+# (lambda_0*dt = 1, 0.5, 2 ... exactly: coincidences that continuous draws never produce)
+
+LATV = [0.25, 0.5, 1.0, 2.0]
+EQ_LAT = {
+    "FisherKPP": dict(diffusivity=LATV, reactivity=LATV),
+    "AllenCahn": dict(diffusivity=LATV, first_order_coefficient=LATV, third_order_coefficient=[-1.0, -2.0, -0.5]),
+    "SwiftHohenberg": dict(reactivity=[0.5, 1.0, 2.0, 3.0], critical_number=[0.5, 1.0]),
+    "GeneralPolynomialStepper": dict(linear_coefficients=[[1.0, 0.0, 1.0], [0.5, 0.0, 0.25], [2.0, 0.0, 1.0]], polynomial_coefficients=[[0.0, 0.0, -1.0], [0.0, 0.0, -2.0], [0.0, 0.0, 1.0, -1.0]]),
+}
+
+
+def eql_strata(tier):
+    return [dict(id="%s-D%d" % (c, D), cls=c, D=D) for c in EQ_LAT for D in (1, 2)]
+
+
+def eql_strategy(stratum, tier):
+    c, D = stratum["cls"], stratum["D"]
+    kw = {k: st.sampled_from(v) for k, v in EQ_LAT[c].items()}
+    kw["order"] = st.sampled_from([3, 4, 2, 1])
+    return st.fixed_dictionaries(
+        dict(cls=st.just(c), D=st.just(D), N=st.sampled_from([8, 9] if D == 1 else [6, 7]), L=st.sampled_from([1.0, 2 * math.pi, 2.0]),
+             dt=st.sampled_from([0.25, 0.5, 1.0, 2.0]), kw=st.fixed_dictionaries(kw), n=st.sampled_from([1, 2]))
+    )  # fmt: skip
+
+
+def eql_check(case):
+    res = R()
+    kw = dict(case["kw"])
+    for k_ in ("linear_coefficients", "polynomial_coefficients"):
+        if k_ in kw:
+            kw[k_] = list(kw[k_])
+    if case["cls"] == "GeneralPolynomialStepper" and len(kw["polynomial_coefficients"]) == 4:
+        kw["dealiasing_fraction"] = 0.5
+    spec = dict(cls=case["cls"], D=case["D"], N=case["N"], L=case["L"], dt=case["dt"], kw=kw)
+    D, N = spec["D"], spec["N"]
+    C = 1
+    key = "C09:equilibrium_lattice:%s" % spec["cls"]
+    kap0 = np.zeros((D, 1))
+    lam0 = float(model.symbol(spec, kap0)[0, 0].real)
+    dt = spec["dt"]
+    res.tag("equilibria_lattice", spec["cls"], "order%d" % kw["order"], "z0=%g" % round(lam0 * dt, 6))
+    eqs = equilibria(spec, [1.0, 1.0, 1.0])
+    nf_lin = model.np_nonlin(model.nonlinear_fun(spec))
+    ok, S = res.lib("construct", reg.build, spec, key=key)
+    if not ok:
+        return res
+    for e in eqs:
+        ustar = np.ones((C,) + (N,) * D) * e[0]
+        eps = 1e-6 * max(1.0, abs(e[0]))
+        npr = float(np.max(np.abs((orc.irfftn(nf_lin(orc.rfftn(ustar + eps)), N) - orc.irfftn(nf_lin(orc.rfftn(ustar - eps)), N)) / (2 * eps))))
+        if abs(dt) * (abs(lam0) + npr) > 4.0:
+            res.tag("amplifying_fixed_point_skipped")
+            continue
+        x = jnp.asarray(ustar)
+        for _ in range(case["n"]):
+            ok, x = res.lib("call", S, x, key=key)
+            if not ok:
+                return res
+        y = np.asarray(x)
+        amp = abs(e[0])
+        rhs = lam0 * ustar + orc.irfftn(nf_lin(orc.rfftn(ustar)), N)
+        mag = amp + abs(dt) * (abs(lam0) * amp + _poly_mag(spec, amp))
+        tol = (1e-11 * mag + 10 * float(np.max(np.abs(rhs))) * abs(dt)) * 300.0 ** case["n"] + 1e-300
+        res.true("lattice_equilibrium_step_finite", bool(np.all(np.isfinite(y))), key=key + ":finite", msg="u* = %s, lambda_0*dt = %g" % (e, lam0 * dt))
+        if np.all(np.isfinite(y)):
+            res.claim("lattice_equilibrium_is_fixed_point", float(np.max(np.abs(y - ustar))), tol, key=key, msg="u* = %s, lambda_0*dt = %g" % (e, lam0 * dt))
+        if amp > 0:
+            res.nontrivial = True
+    return res
+
+
 SUBS = [
     Sub("mean", mean_check, strata=mean_strata, strategy=mean_strategy, n=(2, 10)),
     Sub("no_work", work_check, strata=work_strata, strategy=work_strategy, n=(5, 12)),
     Sub("equilibria", eq_check, strata=eq_strata, strategy=eq_strategy, n=(3, 12)),
+    Sub("equilibria_lattice", eql_check, strata=eql_strata, strategy=eql_strategy, n=(8, 80)),
 ]
